@@ -10,7 +10,7 @@ CLAIMED = {
  "C01": C("Sign is proved to return exactly the TBS it signed, signed with the hash/OID/key type of one spec table (RFC 3279/4055/5758), issuer DN taken from the issuer context; GenerateArtifacts is proved to fill that context from the issuer's current artifact (key, subject-public-key bits, SUBJECT of its certificate); PlanBulkUpdate is proved equal to a breadth-first recursion; for all inputs.",
            "Assumed: sign/verify axiom of crypto/ecdsa and crypto/rsa, hash.Hash model, asn1.Marshal deterministic in the deep value, db.Database interface contract, ExtensionBuilder.Compile deterministic." + COMMON, "6 (C01)"),
  "C02": C("Proved on gopki's side: version 2, serial below 2^159, inner and outer AlgorithmIdentifier equal including parameters, NULL parameters for RSA and none for ECDSA, BitLength of the signature value; table lemmas for the signature OIDs.",
-           "DER of primitives and struct-tag driven encoding is encoding/asn1 (assumed)." + COMMON, "6 (C02)"),
+           "DER of primitives is encoding/asn1 (assumed); field order and tag options of the reflection-encoded structs are pinned by shape obligations taken from the ASN.1 modules." + COMMON, "6 (C02)"),
  "C04": C("toTimeStruct is proved against the calendar spec (from/until as civil dates at local midnight through an assumed time.ParseInLocation contract that REQUIRES the layout 2006-01-02, duration components added with AddDate, five-year default, both-given rejected, year range), Merge's inheritance rule and the UTC conversion in NewCertificateContext/BuildCertBody; for all inputs.",
            "Assumed: time.ParseInLocation/AddDate/UTC, regexp groups of the duration pattern, strconv.Atoi; UTCTime/GeneralizedTime choice is encoding/asn1." + COMMON, "6 (C04)"),
  "C05": C("Table lemmas proved on the executed package initializers: every documented key/signature algorithm name maps to the algorithm of that name, signature OIDs, key types, curves and curve OIDs per algorithm; GeneratePrivateKey is proved to ask for exactly the modulus length (1024/2048/4096/8192) or the curve the algorithm names, SetPrivateKey to fill the SubjectPublicKeyInfo with rsaEncryption+NULL+PKCS#1 key or id-ecPublicKey+named-curve OID+uncompressed point of that very key; BuildCertBody's generate/reuse/CSR choice and Sign's algorithm identifier are proved.",
@@ -24,7 +24,7 @@ CLAIMED = {
  "C13": C("HashSum is proved to be SHA-1 over the JSON of the configuration with alias, profile name and run-relative times blanked (spec blankV); lemmas over blankV prove insensitivity to exactly those and sensitivity to every other field and to static validity.",
            "Assumed: json.Marshal deterministic/injective per shape, SHA-1 collision-free." + COMMON, "6 (C13)"),
  "C14": C("BuildCertBody is proved to reuse a stored key (regardless of the configured algorithm), else use the request's public key without inventing a private key, else generate; GenerateArtifacts is proved to pass the stored key/request in and to return them in the new artifact; the PEM writers are proved to emit exactly one block of the right type with the PKCS#8 of that key (MarshalPKCS8PrivateKey/parseECPrivateKey/ParsePKCS8PrivateKey proved field by field, see C17).",
-           "ReadPem's block dispatch is assumed (pem.Decode loop outside the subset); induction over runs is a paper step." + COMMON, "6 (C14)"),
+           "ReadPem is proved against the block-scan recursion of specs/pem.smt2 (pem.Decode and asn1.Unmarshal assumed); induction over runs is a paper step." + COMMON, "6 (C14)"),
  "C19": C("BuildCertBody, Sign and SignCertBody are proved with strongest postconditions per field: each TBS manipulation sets exactly its field before signing, the outer ones replace exactly the outer algorithm/value after signing and leave the signed part untouched.",
            "OID text to arcs and raw decoding are proved in OidFromString/readRawString." + COMMON, "6 (C19)"),
  "C03": C("ParseRDNSequence is proved to turn the comma-separated pieces into single-valued RDNs in reversed order with the type from the documented short-name table (table lemma on the executed initializer) or the dotted OID (OidFromString proved arc by arc) and the value text after the first '=' unchanged; Validate/Merge/validateAndMerge are proved to leave the subject untouched (frame); serial and unique ids are proved to pass through initCertificate, BuildCertBody and Sign.",
@@ -38,7 +38,7 @@ CLAIMED = {
  "C16": C("Admission.marshal, Admissions.marshal, ProfessionInfo.marshal (partialMarshallStruct inlined, its reflection and struct tags evaluated) and makeExplicit are proved to compose the CommonPKI AdmissionSyntax TLV by TLV with the tag strings of the specification; the v1 convert functions are proved to carry every configured field and GeneralName kind.",
            "Field encoders inside encoding/asn1 are assumed." + COMMON, "6 (C16)"),
  "C17": C("marshalECPrivateKeyWithOID is proved to emit RFC 5915 ECPrivateKey version 1 with the scalar as exactly ceil(bitlen(n)/8) big-endian octets (leading zeros kept), the curve OID and the uncompressed point; MarshalPKCS8PrivateKey to wrap it (or the PKCS#1 key with NULL parameters) under the right algorithm identifier and the named-curve OID of a table proved on the executed initializers; parseECPrivateKey/ParsePKCS8PrivateKey/namedCurveFromOID are proved to read those fields back (scalar value, zero padding accepted, range check against the curve order, curve by OID for all ten curves) and to reject anything else with an error.",
-           "The byte-level round trip composes these per-function contracts with asn1.Marshal/Unmarshal being inverse on the two structs (assumed) - a paper step; ReadPem's block dispatch is assumed; big.Int and elliptic-curve arithmetic are spec functions." + COMMON, "6 (C17)"),
+           "The byte-level round trip composes these per-function contracts with asn1.Marshal/Unmarshal being inverse on the two structs (assumed) - a paper step; ReadPem's block scan is proved against specs/pem.smt2 with pem.Decode assumed; struct declarations are pinned by shape obligations; big.Int and elliptic-curve arithmetic are spec functions." + COMMON, "6 (C17)"),
  "C18": C("IsConsistent is proved to compare NumEntities with the size of the breadth-first closure of the root list under GetSubscribers (loop invariant against the recursive spec bfs), so dangling issuers, cycles and self-loops (never reached from a root) make it false; importCertConfigFile is proved to derive the alias (explicit or base name without suffix), to refuse a second configuration of the same alias, and to file the entity under roots or under its issuer's subscribers; the sign closure is proved to reach BulkUpdate only after Open succeeded; write frame as in C10.",
            "Partial: importFiles' directory walk and suffix filter are not under contract (fs.WalkDir callbacks); that bfs-count equality characterises forests is the textbook lemma." + COMMON, "6 (C18)"),
  "C20": C("Safety sweep: every index, slice, nil dereference, type assertion, lossy conversion and explicit panic in all functions under contract is an obligation discharged for all inputs satisfying the stated preconditions; preconditions are obligations at in-repo call sites.",
